@@ -172,6 +172,8 @@ pub fn build_string(spec: &FwSpec) -> Built<String> {
 pub struct GenParams {
     pub max_n: usize,
     pub allow_removals: bool,
+    /// percentage of frameworks forced to a single component
+    pub single_component_pct: usize,
 }
 
 fn shape_attacks(rng: &mut Rng, base: L, n: usize, out: &mut Vec<(L, L)>) {
@@ -287,7 +289,7 @@ pub fn gen_framework(rng: &mut Rng, p: &GenParams) -> FwSpec {
         })
         .collect();
     let n = rng.weighted(&n_weights);
-    let n_comp = if n >= 2 { rng.weighted(&[50, 35, 15]) + 1 } else { 1 };
+    let n_comp = if n >= 2 && rng.below(100) >= p.single_component_pct { rng.weighted(&[50, 35, 15]) + 1 } else { 1 };
     // split n into components
     let mut sizes = vec![0usize; n_comp];
     for _ in 0..n {
